@@ -34,7 +34,7 @@ pub fn strategy(backends: Vec<u8>, max_n: usize) -> BoxedStrategy<Req> {
                 .prop_map(|(kind, force, a, b, p)| Req::new("mem.msm", vec![vec![kind], vec![force], cat(&a), cat(&b), cat(&p)]))
         }),
         4 => prop_oneof![6 => 1usize..=max_n.min(40), 1 => prop::sample::select(vec![63usize, 64, 65, 100, 128, 129, 150]), 1 => 1usize..=max_n].prop_flat_map(|n| (vec(secret_scalar(), n), vec(secret_scalar(), n)).prop_map(|(a, b)| Req::new("mem.batch_invert", vec![cat(&a), cat(&b)]))),
-        6 => (0u8..6, secret32(), secret32()).prop_map(|(ty, k, aux)| Req::new("mem.drop", vec![vec![ty], k.to_vec(), aux.to_vec()])),
+        6 => (0u8..12, secret32(), secret32()).prop_map(|(ty, k, aux)| Req::new("mem.drop", vec![vec![ty], k.to_vec(), aux.to_vec()])),
         3 => (0u8..13, u256_interesting()).prop_flat_map(|(ty, b)| {
             let v: BoxedStrategy<B32> = match ty { 1 | 10 => edwards_point().prop_map(|(_, e)| e).boxed(), 3 => super::c06::element(), _ => Just(b).boxed() };
             v.prop_map(move |x| Req::new("mem.zeroize", vec![vec![ty], x.to_vec()]))
@@ -46,12 +46,12 @@ pub fn classify(req: &Req, _resp: &Resp) -> Vec<&'static str> {
     match req.op.as_str() {
         "mem.msm" => { if req.a[2].len() >= 64 { vec!["multiscalar-n>=2"] } else { vec!["multiscalar-n=1"] } }
         "mem.batch_invert" => { if req.a[0].len() >= 64 { vec!["batch-invert-n>=2"] } else { vec![] } }
-        "mem.drop" => { if req.a[0][0] <= 1 { vec!["drop-of-composite-secret-type"] } else { vec!["drop-of-secret-bytes-type"] } }
+        "mem.drop" => { let t = req.a[0][0] % 6; let mut l = if t <= 1 { vec!["drop-of-composite-secret-type"] } else { vec!["drop-of-secret-bytes-type"] }; if req.a[0][0] >= 6 { l.push("drop-on-the-heap"); } l }
         _ => vec!["explicit-zeroize"],
     }
 }
 
-pub const RULE: &str = "create-use-drop sequences of SigningKey, ExpandedSecretKey, EphemeralSecret, ReusableSecret, StaticSecret, SharedSecret built in storage we own (drop_in_place, then the storage bytes are searched for 8-byte windows of the seed / expanded scalar / hash prefix / shared secret); constant-time multiscalar_mul (Edwards and Ristretto, n = 1..40, serial and vector copy through forced dispatch) and Scalar::batch_invert under an instrumenting global allocator that snapshots every block at dealloc/realloc: the freed contents must be identical for two different secret-scalar vectors (same public points) and contain no 8-byte window of the scalars, their radix-16 digit strings or their partial products; explicit zeroize() of scalars, Edwards / Ristretto / subgroup points (the raw storage must equal that of the identity, all four coordinates), compressed points, Montgomery points, X25519 static / ephemeral / reusable / shared secrets and public keys (raw storage all zero). Secrets have no zero bytes. Non-trivial = n >= 2, or a type whose secret is not its whole storage, or any drop/zeroize case";
+pub const RULE: &str = "create-use-drop sequences of SigningKey, ExpandedSecretKey, EphemeralSecret, ReusableSecret, StaticSecret, SharedSecret built in storage we own (drop_in_place, then the storage bytes are searched; and in a Box whose freed block is snapshotted by the allocator hook, where a non-volatile erasure is optimised away for 8-byte windows of the seed / expanded scalar / hash prefix / shared secret); constant-time multiscalar_mul (Edwards and Ristretto, n = 1..40, serial and vector copy through forced dispatch) and Scalar::batch_invert under an instrumenting global allocator that snapshots every block at dealloc/realloc: the freed contents must be identical for two different secret-scalar vectors (same public points) and contain no 8-byte window of the scalars, their radix-16 digit strings or their partial products; explicit zeroize() of scalars, Edwards / Ristretto / subgroup points (the raw storage must equal that of the identity, all four coordinates), compressed points, Montgomery points, X25519 static / ephemeral / reusable / shared secrets and public keys (raw storage all zero). Secrets have no zero bytes. Non-trivial = n >= 2, or a type whose secret is not its whole storage, or any drop/zeroize case";
 
 pub fn checks(tier: Tier) -> Vec<Check> {
     let backends: Vec<u8> = super::c04::dispatch_choices().iter().map(|(_, k)| *k).collect();
